@@ -47,7 +47,8 @@ Definition op_source (o : op) : option nat :=
   | OHead i _ | OTail i _ | ORowSlice i _ _ | OFilter i _ | OLoc i _ _ | OIloc i _ _
   | OMultiSelect i _ | OSort i _ _ | OShift i _ | ODedup i _ _ _ | OApply i _ _ | ODescribe i
   | OResample i _ _ _ | OGroupAgg i _ _ _ | OCsvRoundTrip i | OGroupby i _ | OToCSV i | ORow i _
-  | OColumnNames i | ONrows i | ONcols i | OAgg i _ | OJoin _ i _ _ | OAdd i _ _ => Some i
+  | OColumnNames i | ONrows i | ONcols i | OAgg i _ | OJoin _ i _ _ | OAdd i _ _
+  | OString i | OSelect i _ | OColAt i _ _ | OSeries i _ _ | OPlot _ i _ _ _ _ | OGroupbyOther i _ => Some i
   | OAppendRow i _ | ODropRow i _ | OFillNa i _ | ODropNa i | OAstype i _ _ | ODatetime i _ _
   | ORename i _ _ | OAddColumn i _ _ | ODropColumn i _ | OSetCell i _ _ _ | ODedupInplace i _ _ => Some i
   | OFromCSV _ => None
